@@ -46,6 +46,8 @@ def items(tier, seed):
         out.append(Item("C13", "twice", dict(kind="other", line=i), budget_s=600, obligation="H1-two-runs-ip-as"))
     for n in ((1, 2) if tier == "quick" else (1, 2, 3)):
         out.append(Item("C13", "earlier", dict(what="reserved", n=n), budget_s=600 if tier == "quick" else 3000, obligation="H2-earlier-anonymizers"))
+    for n in ((1,) if tier == "quick" else (1, 2)):
+        out.append(Item("C13", "earlier", dict(what="reserved-words", n=n), budget_s=600 if tier == "quick" else 3000, obligation="H2-earlier-anonymizers"))
     out.append(Item("C13", "earlier", dict(what="words", n=0), budget_s=600, obligation="H2-earlier-anonymizers"))
     out.append(Item("C13", "earlier", dict(what="salt", n=0), budget_s=600, obligation="H2-earlier-anonymizers"))
     for i in ((0,) if tier == "quick" else (0, 1, 3, 5)):
@@ -182,10 +184,10 @@ def earlier(item, res):
     what, n = item.params["what"], item.params["n"]
     ex = Explorer(deadline=time.time() + item.budget_s)
     ws = [z3.BitVec("r%d" % i, 8) for i in range(n)]
-    kw = dict(anon_pwd=True, anon_ip=(what != "reserved"), salt="S", sensitive_words=["sea"], preserve_suffix_v4=8, preserve_suffix_v6=8)
+    kw = dict(anon_pwd=True, anon_ip=(not what.startswith("reserved")), salt="S", sensitive_words=["sea"], preserve_suffix_v4=8, preserve_suffix_v6=8)
 
     def lines_for():
-        if what == "reserved":
+        if what.startswith("reserved"):
             return [SStr.mk([ord(c) for c in "username admin password 0 "] + ws + [10]), SStr.mk([ord(c) for c in "router "] + ws + [ord(c) for c in "sea x\n"])]
         return ["username admin password 0 hunter2\n", "router sea01 1.2.3.4\n"]
 
@@ -200,6 +202,9 @@ def earlier(item, res):
         fam().reset_reserved()
         if what == "reserved":
             F.files.FileAnonymizer(anon_pwd=True, anon_ip=False, salt="other", reserved_words=[SStr.mk(list(ws))])
+        elif what == "reserved-words":
+            # an earlier anonymizer whose user reserved word contains the sensitive word (kept by that anonymizer's word stage)
+            F.files.FileAnonymizer(anon_pwd=True, anon_ip=False, salt="other", sensitive_words=["sea"], reserved_words=[SStr.mk(list(ws) + [ord(c) for c in "sea"])])
         elif what == "words":
             _run(F, ["seattle lax\n"], anon_pwd=True, anon_ip=True, salt="other", sensitive_words=["lax", "attle"], reserved_words=None)
         else:
